@@ -4,6 +4,7 @@ import (
 	"fmt"
 	"go/token"
 	"go/types"
+	"sort"
 	"strings"
 	"sync"
 
@@ -323,10 +324,21 @@ func allInstrs(f *ssa.Function, fn func(ssa.Instruction)) {
 }
 
 // findCalls returns the calls in f whose callee name equals name, in order.
+// normName makes a method name independent of the receiver kind: pkg.(*T).M -> pkg.T.M
+func normName(n string) string {
+	if i := strings.Index(n, ".(*"); i >= 0 {
+		if j := strings.Index(n[i:], ")."); j >= 0 {
+			return n[:i+1] + n[i+3:i+j] + n[i+j+1:]
+		}
+	}
+	return n
+}
+
 func findCalls(f *ssa.Function, name string) []ssa.CallInstruction {
 	var out []ssa.CallInstruction
+	name = normName(name)
 	allInstrs(f, func(ins ssa.Instruction) {
-		if ci, ok := ins.(ssa.CallInstruction); ok && calleeName(ci.Common()) == name {
+		if ci, ok := ins.(ssa.CallInstruction); ok && normName(calleeName(ci.Common())) == name {
 			out = append(out, ci)
 		}
 	})
@@ -349,4 +361,251 @@ func noReturnCall(cc *ssa.CallCommon) bool {
 		return true
 	}
 	return false
+}
+
+// reachesCallee: f (or a module function it reaches) calls a function whose short name is `short`.
+func reachesCallee(c *Ctx, f *ssa.Function, short string) bool {
+	fs := map[*ssa.Function]bool{f: true}
+	for x := range c.reach(f) {
+		fs[x] = true
+	}
+	for x := range fs {
+		for _, ci := range callsOf(x) {
+			if shortCallee(ci.Common()) == short {
+				return true
+			}
+		}
+	}
+	return false
+}
+
+// paramOrSpill: v is a parameter of f, or the load of a local that only ever holds a parameter of f
+// (parameters captured by a closure are spilled to an Alloc).
+func paramOrSpill(v ssa.Value, f *ssa.Function) bool {
+	if p, ok := v.(*ssa.Parameter); ok {
+		return p.Parent() == f
+	}
+	u, ok := v.(*ssa.UnOp)
+	if !ok || u.Op != token.MUL {
+		return false
+	}
+	a, ok := u.X.(*ssa.Alloc)
+	if !ok || a.Referrers() == nil {
+		return false
+	}
+	n := 0
+	for _, rf := range *a.Referrers() {
+		if st, ok := rf.(*ssa.Store); ok && st.Addr == a {
+			if p, ok := st.Val.(*ssa.Parameter); !ok || p.Parent() != f {
+				return false
+			}
+			n++
+		}
+	}
+	return n == 1
+}
+
+// originLeaves follows v back through conversions, loads of spill slots, phis, closure bindings and - for
+// parameters - the arguments at every static call site inside scope. The leaves are the values where this stops.
+func (c *Ctx) originLeaves(v ssa.Value, scope map[*ssa.Function]bool) []ssa.Value {
+	var out []ssa.Value
+	seen := map[ssa.Value]bool{}
+	var walk func(v ssa.Value, depth int)
+	walk = func(v ssa.Value, depth int) {
+		if v == nil || seen[v] || depth > 12 {
+			return
+		}
+		seen[v] = true
+		switch x := v.(type) {
+		case *ssa.Convert:
+			walk(x.X, depth+1)
+			return
+		case *ssa.ChangeType:
+			walk(x.X, depth+1)
+			return
+		case *ssa.Phi:
+			for _, e := range x.Edges {
+				walk(e, depth+1)
+			}
+			return
+		case *ssa.UnOp:
+			if a, ok := x.X.(*ssa.Alloc); ok && x.Op == token.MUL && a.Referrers() != nil {
+				n := 0
+				for _, rf := range *a.Referrers() {
+					if st, ok := rf.(*ssa.Store); ok && st.Addr == a {
+						walk(st.Val, depth+1)
+						n++
+					}
+				}
+				if n > 0 {
+					return
+				}
+			}
+			if fv, ok := x.X.(*ssa.FreeVar); ok && x.Op == token.MUL {
+				fn := fv.Parent()
+				n := 0
+				for i, w := range fn.FreeVars {
+					if w != fv || fn.Parent() == nil {
+						continue
+					}
+					allInstrs(fn.Parent(), func(ins ssa.Instruction) {
+						if mc, ok := ins.(*ssa.MakeClosure); ok && mc.Fn == fn && i < len(mc.Bindings) {
+							if a, ok := mc.Bindings[i].(*ssa.Alloc); ok && a.Referrers() != nil {
+								for _, rf := range *a.Referrers() {
+									if st, ok := rf.(*ssa.Store); ok && st.Addr == a {
+										walk(st.Val, depth+1)
+										n++
+									}
+								}
+							}
+						}
+					})
+				}
+				if n > 0 {
+					return
+				}
+			}
+		case *ssa.Parameter:
+			f := x.Parent()
+			idx := -1
+			for i, p := range f.Params {
+				if p == x {
+					idx = i
+				}
+			}
+			n := 0
+			for _, e := range c.callSitesOf(f) {
+				if scope != nil && !scope[e.Caller] {
+					continue
+				}
+				ci, ok := e.Site.(ssa.CallInstruction)
+				if !ok || idx < 0 || idx >= len(ci.Common().Args) {
+					continue
+				}
+				walk(ci.Common().Args[idx], depth+1)
+				n++
+			}
+			if n > 0 {
+				return
+			}
+		}
+		out = append(out, v)
+	}
+	walk(v, 0)
+	return out
+}
+
+// isExecHeight: v is the height of the block being applied - every origin of v on the sync path is
+// `<in-memory sync height> + 1` computed in the sync root (whatever the locals and parameters in between are called).
+func (c *Ctx) isExecHeight(v ssa.Value) bool {
+	leaves := c.originLeaves(v, c.RSync)
+	if len(leaves) == 0 {
+		return false
+	}
+	for _, l := range leaves {
+		// the height field of the directory/entry block fetched for the executing height (trusted: factomd
+		// answers dblock-by-height with the block of that height)
+		if tp := typePath(l); tp == "factom.EBlock.Height" || tp == "factom.DBlock.Height" {
+			continue
+		}
+		bo, ok := l.(*ssa.BinOp)
+		if !ok || bo.Op != token.ADD || bo.Parent() != c.Sync {
+			return false
+		}
+		k, ok := bo.Y.(*ssa.Const)
+		if !ok || k.Value == nil || k.Int64() != 1 || typePath(bo.X) != "pegnet.BlockSync.Synced" {
+			return false
+		}
+	}
+	return true
+}
+
+// describeOrigin names the origins of v for messages.
+func (c *Ctx) describeOrigin(v ssa.Value) string {
+	var parts []string
+	for _, l := range c.originLeaves(v, c.RSync) {
+		d := typePath(l)
+		if d == "" {
+			d = valuePath(l)
+		}
+		if d == "" {
+			d = l.String()
+		}
+		parts = append(parts, d)
+	}
+	sort.Strings(parts)
+	return strings.Join(dedupStrings(parts), " | ")
+}
+
+// ownParam: v is (a conversion or spill of) a parameter of its enclosing function f; returns its index, -1 otherwise.
+func ownParam(v ssa.Value, f *ssa.Function) int {
+	v = unwrapConv(v)
+	p := spilledParam(v)
+	if p == nil || p.Parent() != f {
+		return -1
+	}
+	for i, q := range f.Params {
+		if q == p {
+			return i
+		}
+	}
+	return -1
+}
+
+// eqEdges: for a block ending in `if x == y` / `if x != y` (possibly negated), the comparison and the successors
+// taken when the operands differ and when they are equal - whichever way round the source wrote the test.
+func eqEdges(b *ssa.BasicBlock) (bo *ssa.BinOp, ne, eq *ssa.BasicBlock) {
+	cond, tb, fb := condEdge(b)
+	if cond == nil {
+		return nil, nil, nil
+	}
+	for {
+		if u, ok := cond.(*ssa.UnOp); ok && u.Op == token.NOT {
+			cond, tb, fb = u.X, fb, tb
+			continue
+		}
+		break
+	}
+	x, ok := cond.(*ssa.BinOp)
+	if !ok {
+		return nil, nil, nil
+	}
+	switch x.Op {
+	case token.NEQ:
+		return x, tb, fb
+	case token.EQL:
+		return x, fb, tb
+	}
+	return nil, nil, nil
+}
+
+// ordEdges: for a block ending in an ordered comparison of x and y (any of < <= > >=, possibly negated), the
+// operands normalised so that lt is the successor taken when x < y and ge the one taken when x >= y.
+func ordEdges(b *ssa.BasicBlock) (x, y ssa.Value, lt, ge *ssa.BasicBlock) {
+	cond, tb, fb := condEdge(b)
+	if cond == nil {
+		return nil, nil, nil, nil
+	}
+	for {
+		if u, ok := cond.(*ssa.UnOp); ok && u.Op == token.NOT {
+			cond, tb, fb = u.X, fb, tb
+			continue
+		}
+		break
+	}
+	bo, ok := cond.(*ssa.BinOp)
+	if !ok {
+		return nil, nil, nil, nil
+	}
+	switch bo.Op {
+	case token.LSS: // x < y
+		return bo.X, bo.Y, tb, fb
+	case token.GEQ: // x >= y
+		return bo.X, bo.Y, fb, tb
+	case token.GTR: // x > y  ==  y < x
+		return bo.Y, bo.X, tb, fb
+	case token.LEQ: // x <= y  ==  y >= x
+		return bo.Y, bo.X, fb, tb
+	}
+	return nil, nil, nil, nil
 }
